@@ -20,9 +20,9 @@ func (c20) ID() string    { return "C20" }
 func (c20) Level() string { return "exploration" }
 func (c20) Runs(tier string) int {
 	if tier == "thorough" {
-		return 40000
+		return 400000
 	}
-	return 1500
+	return 24000
 }
 func (c20) Rule() string {
 	return "histories over {Register<T>(name, fn_i), call (T, name, receiver as literal or variable, arguments) through EvaluateString, load(tree), call through (*Template).String} with 2..3 names (some colliding with built-ins) x the five receiver types x a catalogue of recording functions. Run 0 enumerates ALL histories of length <= 2 over a fixed alphabet (exhaustive), the others are seeded random histories of length 3..20 with arguments ranging over nested arrays/objects, boundary integers, empty and non-ASCII strings, nil. Refinement against an executable reference model: a map (type, name) -> first registered function; Register returns nil iff the key is new; a call observes the built-in when one exists (decided by the repository's exported error constant on an empty registry), else the first registered function, which must have received receiver and arguments deep-equal to the plain Go values of the same content and whose result must print exactly like the same Go value passed as data; otherwise an error naming function and receiver type. evaluations = operations executed. distinct_nontrivial = distinct histories (content hash) that contain a duplicate registration or a call after a load."
